@@ -166,7 +166,7 @@ def run_config(ctx, name, wrapper, defines, entry, args, time_limit=120, flavour
     return agg
 
 
-def run_configs(ctx, specs, jobs_outer=1):
+def run_configs(ctx, specs, jobs_outer=1, reserve=0):
     """specs: list of kwargs for run_config, run one after the other (each uses all cores for its path exploration);
     native builds are prefetched concurrently"""
     if getattr(ctx, 'only', None): specs = [s for s in specs if ctx.only in s['name']]
@@ -182,7 +182,14 @@ def run_configs(ctx, specs, jobs_outer=1):
     with ThreadPoolExecutor(min(12, max(1, len(uniq)))) as ex:
         list(ex.map(pre, uniq.values()))
     out = {}
-    deadline = getattr(ctx, 'deadline', None)
-    for sp in specs:
+    if ctx.tier != 'quick':
+        # thorough tier: the rows of the quick table (and other short rows) first, at their own limits, so that thorough never covers less than quick;
+        # then the deep rows share what is left of the budget equally (a row that ends early leaves its share to the others), none is dropped outright
+        specs = sorted(specs, key=lambda sp: 0 if sp.get('time_limit', 120) <= 300 else 1)
+    for i, sp in enumerate(specs):
+        sp = dict(sp)
+        if ctx.tier != 'quick' and sp.get('time_limit', 120) > 300:
+            left = getattr(ctx, 'deadline', time.time() + 10**9) - time.time() - reserve
+            sp['time_limit'] = min(sp['time_limit'], max(60, left / (len(specs) - i)))
         out[sp['name']] = run_config(ctx, **sp)
     return out
